@@ -1,6 +1,7 @@
 """C17 — re-observation requests are routed once per transaction and never block."""
 import os
 import core
+from dbgroup_common import run_cases_retry, coq_prove_retry
 from c04 import hist
 
 HDR = ("From Coq Require Import Uint63.\nFrom Coq Require Import List ZArith Bool Arith Strings.Byte.\n"
@@ -68,7 +69,7 @@ def mon_key(m):
 
 def run(ctx):
     st = core.run_extract(ctx, ["reobserve"])
-    core.coq_prove(ctx, "C17", extra_targets=["model/ReobserveRun.vo"])
+    coq_prove_retry(ctx, "C17", extra_targets=["model/ReobserveRun.vo"])
     if ctx.tier == "thorough":
         core.coq_thorough_audit(ctx, "C17")
     rc, out, trace = core.harness_pkg(ctx, "guardiand_reobs", "^TestVerifC17$", timeout=1800, race=(ctx.tier == "thorough"))
@@ -141,8 +142,8 @@ def run(ctx):
             ctx.problem("monitor", m, "observed on the implementation (%s %d)" % (r["k"], r["idx"]), concrete=True, replay=replay_of(r, oi, m), key=k)
     ctx.cov["monitor_failures"] = nmon
     # model vs implementation
-    bad = core.run_cases(ctx, "cases_C17", rows, HDR, "dcase", gcase, "(* ok : dcase -> bool is WH.model.ReobserveRun.ok *)",
-                         weight=lambda r: len(r.get("ops") or []) + len(r.get("posts") or []))
+    bad = run_cases_retry(ctx, "cases_C17", rows, HDR, "dcase", gcase, "(* ok : dcase -> bool is WH.model.ReobserveRun.ok *)", ["model/ReobserveRun.vo"],
+                          weight=lambda r: len(r.get("ops") or []) + len(r.get("posts") or []))
     if bad is None:
         return
     for i in bad[:3]:
